@@ -16,6 +16,7 @@
 package vx
 
 import (
+	"bytes"
 	"crypto/sha256"
 	"encoding/binary"
 	"encoding/hex"
@@ -96,6 +97,8 @@ type Ctx struct {
 	nsamples  int64
 	expired   atomic.Bool
 	crumbPath string
+	crumbF    *os.File
+	crumbMax  int
 }
 
 type replayFile struct {
@@ -183,6 +186,9 @@ func (c *Ctx) finish() {
 		b, _ := json.MarshalIndent(&c.res, "", " ")
 		if err := os.WriteFile(c.out, b, 0o644); err != nil {
 			c.T.Fatalf("write result: %v", err)
+		}
+		if c.crumbF != nil {
+			c.crumbF.Close()
 		}
 		os.Remove(c.crumbPath)
 	} else {
@@ -462,7 +468,23 @@ func (c *Ctx) crumb(part string, cs any) {
 	b, _ := json.Marshal(cs)
 	rf := replayFile{Property: c.ID, Sig: c.ID + "/" + part + "/crash", What: "process died while executing this case", Part: part, Case: b}
 	rb, _ := json.Marshal(&rf)
-	os.WriteFile(c.crumbPath, rb, 0o644)
+	c.mu.Lock()
+	defer c.mu.Unlock()
+	if c.crumbF == nil {
+		f, err := os.OpenFile(c.crumbPath, os.O_CREATE|os.O_WRONLY|os.O_TRUNC, 0o644)
+		if err != nil {
+			return
+		}
+		c.crumbF = f
+	}
+	// one positional write, padded with spaces (legal trailing JSON whitespace)
+	// up to the longest crumb so far: no truncate/close per case.
+	if len(rb) < c.crumbMax {
+		rb = append(rb, bytes.Repeat([]byte{' '}, c.crumbMax-len(rb))...)
+	} else {
+		c.crumbMax = len(rb)
+	}
+	c.crumbF.WriteAt(rb, 0)
 }
 
 // Opts tunes Enumerate.
